@@ -157,11 +157,15 @@ class FakeTransport(asyncio.Transport):
         self.closed_exc = "open"
         self.on_write = None  # callback(bytes) -> None (used by Wire)
         self.fail_writes = None  # exception to raise from write()
+        self.writes_after_close = 0  # write() calls on a transport that is already closing (asyncio drops them)
+        self.bytes_after_close = 0
 
     def write(self, data):
         if self.fail_writes is not None:
             raise self.fail_writes
         if self.closing:
+            self.writes_after_close += 1
+            self.bytes_after_close += len(data)
             return
         b = bytes(data)
         self.chunks.append(b)
